@@ -48,3 +48,52 @@ package storage
 //@   ensures [C08.trunc_keep_has_header] err == nil && result1 ==> len(result0.Bytes) >= 61 && len(result0.Bytes) <= len(batch)
 //@   ensures [C08.trunc_flags] err == nil ==> (result1 || result2) && (gkept != -1 ==> result1 && result2)
 //@   ensures [C08.trunc_uncut_batch_unchanged] err == nil && result1 && gkept == -1 ==> len(result0.Bytes) == len(batch) && forall j Int :: 0 <= j && j < len(batch) ==> result0.Bytes[j] == old(batch[j])
+//@   ensures [C08.trunc_error_returns_nothing] err != nil ==> !result1 && !result2
+
+// ---- collectRecoverableBatches: the frames of a segment body are examined in order, from the start, without gaps; each is handed
+// to truncateRecordBatchToTimestamp as a private copy with the same cut-off; what it keeps is appended in that order; nothing after
+// the first frame it reports done is looked at; any error discards everything ----
+// gnext is the body offset at which the next frame must start (0, then the end of the previous frame); gdone records a done answer.
+//@ func collectRecoverableBatches
+//@   ghost gnext int = 0
+//@   ghost gdone bool = false
+//@   loop 1 modifies gnext
+//@   loop 1 invariant offset == gnext && !gdone && sameSlice(body, segmentBytes[32 : len(segmentBytes) - 16])
+//@   at truncateRecordBatchToTimestamp#1 before assert [C08.collect_frames_contiguous_from_start] offset == gnext && 0 <= offset && offset + 12 <= len(body) && frameLen == 12 + be32(body, offset + 8) && frameLen > 12 && offset + frameLen <= len(body)
+//@   at truncateRecordBatchToTimestamp#1 before assert [C08.collect_frame_passed_whole_and_private] len(arg0) == frameLen && base(arg0) != base(segmentBytes) && (forall j Int :: 0 <= j && j < frameLen ==> arg0[j] == body[offset + j]) && arg1 == cutoffMs
+//@   at truncateRecordBatchToTimestamp#1 before assert [C08.collect_nothing_after_done] !gdone
+//@   at truncateRecordBatchToTimestamp#1 after set gdone = ret2
+//@   at truncateRecordBatchToTimestamp#1 after set gnext = offset + frameLen
+//@   ensures [C08.collect_rejects_short_or_foreign_segment] len(segmentBytes) < 48 ==> err != nil
+//@   ensures [C08.collect_error_discards_everything] err != nil ==> len(result0) == 0
+
+// ---- buildRestorePlan: the last candidate segment is re-assembled from exactly the batches collectRecoverableBatches kept ----
+//@ func buildRestorePlan
+//@   ghost gseg []byte = nil
+//@   ghost gidx []byte = nil
+//@   ghost gbase int64 = 0
+//@   ghost glast int64 = 0
+//@   ghost gkeptn int = -1
+//@   at collectRecoverableBatches#1 before assert [C08.plan_scans_the_downloaded_segment] sameSlice(arg0, segmentBytes)
+//@   at collectRecoverableBatches#1 after set gkeptn = len(ret0)
+//@   at BuildSegment#1 before assert [C08.plan_rebuilds_from_the_kept_batches] sameSlice(arg1, batches) && len(arg1) == gkeptn && gkeptn > 0
+//@   at BuildSegment#1 after set gseg = ret0.SegmentBytes
+//@   at BuildSegment#1 after set gidx = ret0.IndexBytes
+//@   at BuildSegment#1 after set gbase = ret0.BaseOffset
+//@   at BuildSegment#1 after set glast = ret0.LastOffset
+//@   ensures [C08.plan_drops_segment_when_nothing_kept] err == nil && gkeptn == 0 ==> result0 != nil && !result0.keep
+//@   ensures [C08.plan_is_the_rebuilt_segment] err == nil && gkeptn > 0 ==> result0 != nil && result0.keep && sameSlice(result0.segmentBytes, gseg) && sameSlice(result0.indexBytes, gidx) && result0.baseOffset == gbase && result0.lastOffset == glast
+//@   ensures [C08.plan_error_returns_nothing] err != nil ==> result0 == nil
+
+// The deferred rollback of RecoverTopicToTimestamp (the second function literal in it): unless the restore was committed it calls
+// DeleteIndex and DeleteSegment, in that order, with the keys of every recorded pair, last recorded first; nothing else is deleted.
+//@ func RecoverTopicToTimestamp$2
+//@   requires !isNilIface(*s3)
+//@   ghost gpairs int = 0
+//@   loop 1 modifies gpairs
+//@   loop 1 invariant -1 <= i && i < len(*copiedObjects) && gpairs == len(*copiedObjects) - 1 - i && !*restoreCommitted
+//@   at DeleteIndex#1 before assert [C08.rollback_deletes_recorded_index] 0 <= i && i < len(*copiedObjects) && arg1 == (*copiedObjects)[i].indexKey && recv == *s3
+//@   at DeleteSegment#1 before assert [C08.rollback_deletes_recorded_segment] arg1 == (*copiedObjects)[i].segmentKey && recv == *s3
+//@   at DeleteSegment#1 after set gpairs = gpairs + 1
+//@   ensures [C08.rollback_covers_every_recorded_pair] !old(*restoreCommitted) ==> gpairs == len(*copiedObjects)
+//@   ensures [C08.no_rollback_after_commit] old(*restoreCommitted) ==> gpairs == 0
